@@ -29,10 +29,18 @@ def gen_table(rd, name: str, n_rows: Optional[int] = None, shape: Optional[int] 
     if shape in (1, 3):
         cols.append({"name": "h", "kind": "group", "values": [rd.randrange(1, 3) for _ in range(n)]})
     null_rate = rd.choice([0.0, 0.15, 0.3])
-    cols.append({"name": "x", "kind": "float",
-                 "values": [None if rd.random() < null_rate else rd.randrange(-8, 41) / 4.0 for _ in range(n)]})
+    xv = [None if rd.random() < null_rate else rd.randrange(-8, 41) / 4.0 for _ in range(n)]
+    u = rd.random()
+    if u < 0.06:
+        xv = [None] * n  # a column holding only nulls
+    elif u < 0.12:
+        xv = [(-0.0 if v == 0.0 else v) for v in xv]  # negative zero
+    cols.append({"name": "x", "kind": "float", "values": xv})
     cols.append({"name": "n", "kind": "int",
                  "values": [None if rd.random() < null_rate else rd.randrange(-5, 21) for _ in range(n)]})
+    if rd.random() < 0.15:
+        # a nullable boolean column (pandas "boolean" extension dtype with NA; Polars Boolean with nulls)
+        cols.append({"name": "f", "kind": "nbool", "values": [rd.choice([True, False, None]) for _ in range(n)]})
     if shape in (2, 3):
         svals = ["u", "v", "w", "uu"]
         if rd.random() < 0.3:
@@ -87,6 +95,8 @@ def to_pandas(t, index: Optional[Dict[str, Any]] = None):
                 data[c["name"]] = pd.Series(vals, dtype="int64")
         elif k == "float":
             data[c["name"]] = pd.Series([float("nan") if v is None else float(v) for v in vals], dtype="float64")
+        elif k == "nbool":
+            data[c["name"]] = pd.Series([pd.NA if v is None else bool(v) for v in vals], dtype="boolean")
         else:
             data[c["name"]] = pd.Series(vals, dtype="str")
     df = pd.DataFrame(data)
@@ -151,6 +161,8 @@ def to_polars(t, lazy: bool = False):
                 data[c["name"]] = pl.Series(c["name"], vals, dtype=pl.Int64)
         elif k == "float":
             data[c["name"]] = pl.Series(c["name"], [None if v is None else float(v) for v in vals], dtype=pl.Float64)
+        elif k == "nbool":
+            data[c["name"]] = pl.Series(c["name"], vals, dtype=pl.Boolean)
         else:
             data[c["name"]] = pl.Series(c["name"], vals, dtype=pl.String)
     df = pl.DataFrame(data)
@@ -196,6 +208,9 @@ def gen_steps(r, cols: Dict[str, str], tables: Dict[str, Dict[str, str]], max_st
             new = _fresh(cols, r.choice(["z", "y", "v"]))
             form = r.choice(["arith", "arith", "ifelse", "isnull", "coalesce", "maxmin", "abs", "neg", "const", "round",
                              "rowfn", "isin", "where", "strfn"])
+            nbools = [c for c in names if cols[c] == "nbool"]
+            if nbools and r.random() < 0.5:
+                form = "boolcond"
             a = r.choice(nums)
             b = r.choice(nums)
             k = "float" if "float" in (cols[a], cols[b]) else "int"
@@ -224,6 +239,9 @@ def gen_steps(r, cols: Dict[str, str], tables: Dict[str, Dict[str, str]], max_st
             elif form == "round":
                 expr = f"{a}.floor()" if r.random() < 0.5 else f"{a}.ceil()"
                 outk = "float"
+            elif form == "boolcond":
+                expr = f"{r.choice(nbools)}.{r.choice(['if_else', 'where'])}({a}, {b})"
+                outk = k
             elif form == "rowfn":
                 # row-wise functions: whatever they return for a value, they return it for that value in any row order
                 fn1 = r.choice(["sign", "exp", "sqrt_abs", "log1p_abs", "fmax", "fmin", "is_bad", "coalesce_0", "round"])
@@ -418,7 +436,11 @@ def gen_steps(r, cols: Dict[str, str], tables: Dict[str, Dict[str, str]], max_st
                 o2 = [shared] + ([keys[0]] if keys and keys[0] != shared else [])
                 rev2 = [] if shared in rev else [shared]
                 steps.append({"t": "order_rows", "cols": o2, "reverse": rev2, "limit": r.choice([None, 1, 2, 3])})
-            if kind == "order_limit" and len(names) > len(order) and r.random() < 0.4:
+            if kind == "order_limit" and r.random() < 0.25:
+                # a second ordering on the very same columns with another direction, after a limit
+                rev2 = [c for c in order if c not in rev] if r.random() < 0.7 else list(rev)
+                steps.append({"t": "order_rows", "cols": list(order), "reverse": rev2, "limit": r.choice([None, None, 1, 2])})
+            elif kind == "order_limit" and len(names) > len(order) and r.random() < 0.4:
                 # a limit in the middle of a pipeline whose consumer no longer carries (all of) the order columns
                 victim = r.choice(order)
                 steps.append({"t": "drop_columns", "cols": [victim]})
